@@ -105,7 +105,7 @@ class CosimEngine(Engine):
     max_ops = 16
     expected_probes = ['restart_rotation', 'rotation_depth_ge_2', 'rotation_depth_ge_3', 'kill_after_mem_banner', 'kill_in_header',
                        'kill_mid_row', 'kill_in_step_token', 'kill_row_boundary', 'kill_in_loop_line', 'kill_in_perf_table',
-                       'kill_in_banner', 'kill_lost_everything', 'error_exit', 'read_truncated_log', 'read_append_true_nonempty',
+                       'kill_in_banner', 'banner_in_flight', 'kill_lost_everything', 'error_exit', 'read_truncated_log', 'read_append_true_nonempty',
                        'read_append_false_nonempty', 'read_same_file_twice', 'short_read_source', 'buffered_source',
                        'path_source', 'text_source', 'real_file_object_source', 'crlf_log', 'io_error_read_raised', 'path_of_a_file_that_does_not_exist_yet', 'differential_source_kinds', 'flatten_first_checked',
                        'flatten_last_checked', 'flatten_all_checked', 'flatten_overlap_checked',
@@ -142,7 +142,7 @@ class CosimEngine(Engine):
     assumptions = ['FakeLammps is written from the documented log layout; no LAMMPS binary exists in the sandbox to validate it',
                    'the last line of a file that is not newline-terminated is in flight: its row may be absent or present with '
                    'whatever its tokens parse to; a block whose header line is in flight may be absent',
-                   'a torn version banner exempts the version/date check of that Log object only',
+                   'a version banner that is itself in flight (no newline) is not a banner: it must leave the version unset',
                    'after reads of logs with different banners any of the versions seen is accepted (the statement does not say which)',
                    'flatten first/last is checked on every selection of runs for which the documented shortcut (rows beyond the last '
                    'merged step / rows before this run\'s first step) and the statement\'s set semantics (each step once, from the '
@@ -519,7 +519,9 @@ class CosimEngine(Engine):
         model.blocks.extend(p['blocks'])
         model.versions.append(p['version'])
         if p['banner_torn']:
-            model.torn_banner = True
+            # an in-flight banner line is not a banner: it contributes no version (and must not leave a made-up one behind that
+            # would keep the complete banner of the next log from being read)
+            ctx.probe('banner_in_flight')
         model.reads += 1
         for b in p['blocks']:
             if not b.rows and b.torn_row is None:
